@@ -17,6 +17,9 @@ CHECKS = {
     "C03": ("boundary monitor on deserialize with hostile non-JSON inputs: outcome trichotomy, input/class fingerprints, errors JSON-serialisability, sys.monitoring step budget",
             "Exploration: every call on hostile data must return or raise ValidationError, leave input and user classes untouched, and finish within a logical step budget; held on the executions reported (hostile/coerce/no_copy/deep call counts in the evidence).",
             "Trusted: fingerprint walker; step budget constant; RecursionError beyond 200 nesting levels is the recorded finding F11.", "DESIGN §5 C03"),
+    "C14": ("paired strict/coerced boundary monitor: model-free monotonicity + reference model extended with the documented coercion table + invariant hook on the boolean-word table + custom-coercer probes",
+            "Exploration: each generated (type, datum) is run strict and with coerce=True; strict acceptance must be preserved (equal result when union-free), every coerced acceptance/rejection must be explained by the documented table, custom coercer results must still be type-checked, settings.deserialization.coerce must equal coerce=True.",
+            "Trusted: the coercion table transcribed from docs/de_serialization.md and the statement; abstains on bool-for-float and NaN under constraints.", "DESIGN §5 C14"),
 }
 PLANNED = {
 }
